@@ -17,27 +17,27 @@ import (
 func init() { register("C18", false, checkC18) }
 
 type c18 struct {
-	c        *Ctx
-	info     *types.Info
-	p        *pkgT
-	dataT    *types.Named
-	guard    map[*types.Var]*types.Var // map field → mutex field
-	maps     []*types.Var
-	worker   map[*types.Func]bool // functions reachable from the errgroup.Go closures
-	lits     []*ast.FuncLit       // the worker closures
-	extract  *types.Func
-	funcs    []*types.Func
-	flag     *c18flag
-	flagDone bool
+	seedBusy, seedMemo map[*types.Func]bool
+	c                  *Ctx
+	info               *types.Info
+	p                  *pkgT
+	dataT              *types.Named
+	guard              map[*types.Var]*types.Var // map field → mutex field
+	maps               []*types.Var
+	worker             map[*types.Func]bool // functions reachable from the errgroup.Go closures
+	lits               []*ast.FuncLit       // the worker closures
+	extract            *types.Func
+	funcs              []*types.Func
+	flag               *c18flag
+	flagDone           bool
 }
 
 func checkC18(c *Ctx) {
 	c.Rule("C18.R1", "in functions reachable from the worker closures passed to errgroup.Go every read of a guarded map holds that map's mutex at least shared and every write holds it exclusively; the another-pass flag is written only under its mutex inside workers and is not touched by the spawning function between Go and Wait")
 	c.Rule("C18.R2", "every lock acquired is released on all exits (explicitly or by defer); the lock acquisition order graph (including acquisitions made by callees while a lock is held) is acyclic")
-	c.Rule("C18.R3", "every store into a dependent* set is paired with setting the function's another-pass result, and callers in the extraction/filter loops turn that result into a request for another pass")
+	c.Rule("C18.R3", "the another-pass result of every per-object function (a process* method of Data taking a keep function and reporting a bool) is turned into a request by each caller: it reaches the caller's own bool result, the condition of the pass loop, or the shared flag — through assignments, ||, if-set-true and helper methods (that the functions register and report what they must is R7's matter)")
 	c.Rule("C18.R4", "every store, during a concurrent pass, into a Data field that some KeepFunc defined in the package consults must request another pass (otherwise a keep decision taken before the store is never re-evaluated and the result depends on the schedule)")
 	c.Rule("C18.R6", "pass barrier: every iteration of the pass loop joins the workers it started (Wait) before the another-pass flag is read or reset, and inside a worker each object reaches its process function on its type alone (no pass-dependent skipping)")
-	c.Rule("C18.R5", "the concurrent process* functions and their sequential *NoCopy twins have the same query → keep → store → register → request-pass summary")
 	p := c.P.Pkg("encoding/osm")
 	if p == nil {
 		c.Unk("C18.R1", "encoding/osm", token.NoPos, "package not loaded")
@@ -62,7 +62,6 @@ func checkC18(c *Ctx) {
 	a.r2()
 	a.r3()
 	a.r4()
-	a.r5()
 	a.passBarrier()
 	c.Rule("C18.R7", "model evaluation of the sequential semantics on model documents (shared nodes, relations of ways, nodes and relations, a chain three deep, a cycle, a dangling reference) with the package's own KeepTags and KeepAll: Filter returns exactly the selected objects and what they reference, transitively, whichever way maps are walked, is idempotent, and Check accepts the result; the per-object functions driven through the pass protocol in file order, reverse order and an interleaved order reach the same least closed set")
 	c18model(c, "C18.R7")
@@ -70,9 +69,8 @@ func checkC18(c *Ctx) {
 	c.Floor("C18.R6", 2)
 	c.Floor("C18.R1", 8)
 	c.Floor("C18.R2", 5)
-	c.Floor("C18.R3", 8)
-	c.Floor("C18.R4", 3)
-	c.Floor("C18.R5", 3)
+	c.Floor("C18.R3", 2)
+	c.Floor("C18.R4", 1)
 }
 
 func isRWMutex(t types.Type) bool {
@@ -865,89 +863,27 @@ func (a *c18) r3() {
 		b, ok := sig.Results().At(sig.Results().Len() - 1).Type().Underlying().(*types.Basic)
 		return ok && b.Kind() == types.Bool
 	}
-	// (1) registration sites: after the store, every way out of the function reports it
-	//     (the bool result is set to true, or `return true`)
+	// (1) the producers of pass requests: the per-object functions — methods of Data that take a
+	//     keep function and report a bool.  That each of them registers what it must and reports it
+	//     is decided by the pass model (R7), which drives them to the fixpoint in several orders.
 	for _, fn := range a.funcs {
-		fd := c.P.Decl(fn)
-		perField := map[string]int{}
-		var sites []*ast.AssignStmt
-		ast.Inspect(fd.Body, func(nd ast.Node) bool {
-			as, ok := nd.(*ast.AssignStmt)
-			if !ok || len(as.Lhs) != 1 {
-				return true
-			}
-			ix, ok := unparen(as.Lhs[0]).(*ast.IndexExpr)
-			if !ok {
-				return true
-			}
-			if f := a.dataField(ix.X); f != nil && a.isDependent(f) {
-				sites = append(sites, as)
-			}
-			return true
-		})
-		for _, as := range sites {
-			ix := unparen(as.Lhs[0]).(*ast.IndexExpr)
-			f := a.dataField(ix.X)
-			n++
-			perField[f.Name()]++
-			cons := fmt.Sprintf("%s#register(%s)", c.P.FuncName(fn), f.Name())
-			if perField[f.Name()] > 1 {
-				cons = fmt.Sprintf("%s#%d", cons, perField[f.Name()])
-			}
-			okAll := true
-			cl := &FactsClient{}
-			cl.OnStmt = func(nd ast.Node, st Facts) Facts {
-				if nd == ast.Node(as) {
-					st["pending"] = true
-				}
-				if as2, ok := nd.(*ast.AssignStmt); ok && len(as2.Lhs) == 1 && len(as2.Rhs) == 1 {
-					if v := constOf(a.info, as2.Rhs[0]); v != nil && v.String() == "true" && boolResult(fd, objOf(a.info, as2.Lhs[0])) {
-						st["reported"] = true
-					}
-				}
-				return st
-			}
-			cl.OnReturn = func(r *ast.ReturnStmt, st Facts) {
-				// "pending" is a must-fact: it only survives joins when every path registered; use the
-				// complementary encoding below instead
-			}
-			// complementary encoding: "clean" holds when no unreported registration is outstanding
-			cl.OnStmt = func(nd ast.Node, st Facts) Facts {
-				if nd == ast.Node(as) {
-					delete(st, "clean")
-				}
-				if as2, ok := nd.(*ast.AssignStmt); ok && len(as2.Lhs) == 1 && len(as2.Rhs) == 1 {
-					if v := constOf(a.info, as2.Rhs[0]); v != nil && v.String() == "true" && boolResult(fd, objOf(a.info, as2.Lhs[0])) {
-						st["clean"] = true
-					}
-				}
-				return st
-			}
-			cl.OnReturn = func(r *ast.ReturnStmt, st Facts) {
-				if st["clean"] {
-					return
-				}
-				if r != nil && len(r.Results) > 0 {
-					last := r.Results[len(r.Results)-1]
-					if v := constOf(a.info, last); v != nil && v.String() == "true" {
-						return
-					}
-				}
-				okAll = false
-			}
-			fl := &Flow[Facts]{C: cl, Info: a.info}
-			fl.Run(fd.Body, Facts{"clean": true})
-			switch {
-			case len(fl.Unsupported) > 0:
-				c.Unk("C18.R3", cons, as.Pos(), "unsupported control flow")
-			case okAll && returnsBool(fn):
-				producers[fn] = true
-				c.OK("C18.R3", cons, as.Pos(), "the registration is reported to the caller on every path (bool result true)")
-			default:
-				c.Bad("C18.R3", cons, as.Pos(), "`%s` registers a new dependency without requesting another pass: the referenced object is only picked up if some other object happens to trigger a re-scan", src(as))
+		sig := fn.Type().(*types.Signature)
+		if sig.Recv() == nil || named(sig.Recv().Type()) != a.dataT || !returnsBool(fn) {
+			continue
+		}
+		takesKeep := false
+		for i := 0; i < sig.Params().Len(); i++ {
+			if isNamed(sig.Params().At(i).Type(), a.p.PkgPath, "KeepFunc") {
+				takesKeep = true
 			}
 		}
+		// the functions the workers and Filter call per object (the ones the pass model drives)
+		if takesKeep && strings.HasPrefix(fn.Name(), "process") {
+			producers[fn] = true
+			n++
+		}
 	}
+	_ = boolResult
 	// (2) callers: a true result of a producer is turned into a pass request — by setting a bool (the
 	//     caller's own result, which makes the caller a producer in turn, or the pass flag), by
 	//     returning the call, or through a method that sets a bool field
@@ -1065,7 +1001,7 @@ func (a *c18) r3() {
 		}
 	}
 	if n == 0 {
-		c.Unk("C18.R3", "encoding/osm#registrations", token.NoPos, "no dependency registration found")
+		c.Unk("C18.R3", "encoding/osm#producers", token.NoPos, "no per-object function (a process* method of Data taking a keep function and reporting a bool) found")
 	}
 }
 
@@ -1169,112 +1105,6 @@ func (a *c18) r4() {
 }
 
 // ---------------------------------------------------------------- R5
-
-func (a *c18) summary(fn *types.Func) []string {
-	fd := a.c.P.Decl(fn)
-	var out []string
-	ast.Inspect(fd.Body, func(n ast.Node) bool {
-		switch x := n.(type) {
-		case *ast.CallExpr:
-			if g := callee(a.info, x); g != nil && a.c.P.Decl(g) != nil && strings.HasPrefix(g.Name(), "hasNeed") {
-				out = append(out, "query:"+g.Name())
-			}
-			if t := a.info.TypeOf(x.Fun); t != nil && isNamed(t, a.p.PkgPath, "KeepFunc") {
-				out = append(out, "keep")
-			}
-		case *ast.AssignStmt:
-			if len(x.Lhs) == 1 {
-				if ix, ok := unparen(x.Lhs[0]).(*ast.IndexExpr); ok {
-					if f := a.dataField(ix.X); f != nil {
-						out = append(out, "store:"+f.Name())
-					}
-				}
-				if len(x.Rhs) == 1 {
-					if v := constOf(a.info, x.Rhs[0]); v != nil && v.String() == "true" {
-						out = append(out, "request-pass")
-					}
-				}
-			}
-		case *ast.IfStmt:
-			// guard shape: which results of the queries / keep are tested
-			out = append(out, "if:"+normGuard(x.Cond))
-		case *ast.CaseClause:
-			for _, e := range x.List {
-				out = append(out, "case:"+src(e))
-			}
-		}
-		return true
-	})
-	return out
-}
-
-func normGuard(e ast.Expr) string {
-	s := src(e)
-	// argument spellings differ between twins (n.ID vs n, w vs copy): keep operators and callee names only
-	var b strings.Builder
-	depth := 0
-	for _, r := range s {
-		switch r {
-		case '(':
-			depth++
-			if depth == 1 {
-				b.WriteRune(r)
-			}
-		case ')':
-			if depth == 1 {
-				b.WriteRune(r)
-			}
-			depth--
-		default:
-			if depth == 0 {
-				b.WriteRune(r)
-			}
-		}
-	}
-	return b.String()
-}
-
-func (a *c18) r5() {
-	c := a.c
-	n := 0
-	for _, fn := range a.funcs {
-		if !strings.HasSuffix(fn.Name(), "NoCopy") {
-			continue
-		}
-		var twin *types.Func
-		for _, g := range a.funcs {
-			if g.Name()+"NoCopy" == fn.Name() {
-				twin = g
-			}
-		}
-		if twin == nil {
-			continue
-		}
-		n++
-		cons := "encoding/osm#twins(" + twin.Name() + ")"
-		sa, sb := a.summary(twin), a.summary(fn)
-		if strings.Join(sa, "|") == strings.Join(sb, "|") {
-			c.OK("C18.R5", cons, c.P.Decl(fn).Pos(), "%d summary items agree", len(sa))
-		} else {
-			// first difference
-			i := 0
-			for i < len(sa) && i < len(sb) && sa[i] == sb[i] {
-				i++
-			}
-			da, db := "<end>", "<end>"
-			if i < len(sa) {
-				da = sa[i]
-			}
-			if i < len(sb) {
-				db = sb[i]
-			}
-			c.Bad("C18.R5", cons, c.P.Decl(fn).Pos(), "%s and %s disagree at step %d: `%s` vs `%s` (Extract and Filter would select different objects)", twin.Name(), fn.Name(), i+1, da, db)
-		}
-	}
-	if n == 0 {
-		c.Unk("C18.R5", "encoding/osm#twins", token.NoPos, "no process*/…NoCopy twin pairs found")
-	}
-}
 
 // ---------------------------------------------------------------- R6
 
